@@ -486,7 +486,8 @@ CHECKS["C18"] = {
               "microsecond offsets (half of the cases as a burst right before the closing) while the Server is closed: every peer that got connected is served (receives bytes) or sees its connection end "
               "within 8 s (one I/O poll for a silent peer in mid-handshake), ListenAndServe returns ErrServerClosed and no serving goroutine stays. "
               "A quarter of these cases serve the same Server value two or three times, half of those starting the next serve call right after Close returned, before the previous call came back (Close must not answer \"not listening\" then). "
-              "The TCP and WebSocket listeners alone are also started and closed thousands of times in a row: nothing panics."),
+              "The TCP and WebSocket listeners alone are also started and closed thousands of times in a row: nothing panics. "
+              "WebSocket peers that have not got as far as an upgrade when the Server is closed - connected and silent, in the middle of their upgrade request, or refused and kept alive by the listener's HTTP server - see their connection end as well."),
     "note": "Virtual time for the parked-stage cases, real time for the loopback-listener cases; schedules are sampled (GOMAXPROCS varied). The in-memory listener mirrors the library listeners' Accept (select over context, close signal, queue) and refuses what is left in its backlog when closed, as a kernel does.",
     "technique": "property-based testing (rapid) over (listeners, parked client stages, flood, close moment) with callback-log / return-value / goroutine-census oracles, in virtual time",
     "rule": "case = (listener kinds, client stages, flood size, delay before Close, close twice). Non-trivial: Close with a session mid-handshake or established, or with the flood running. Distinct by SHA-1 of the case.",
@@ -495,6 +496,7 @@ CHECKS["C18"] = {
         {"test": "TestC18Replay", "kind": "plain"},
         {"test": "TestC18", "kind": "rapid", "shards": 12, "checks": (250, 12000), "timeout": (300, 3000), "gomaxprocs": [1, 2, 4, 16, 8, 2]},
         {"test": "TestC18ListenerRestart", "kind": "plain", "timeout": (300, 1500)},
+        {"test": "TestC18WSRaw", "kind": "plain", "timeout": (300, 1500)},
         {"test": "TestC18ServeAgainEarly", "kind": "plain", "timeout": (300, 1500)},
         {"test": "TestC18RealAccept", "kind": "rapid", "shards": (4, 8), "checks": (10, 150), "timeout": (300, 3000), "gomaxprocs": [4, 16, 2, 8], "shrink": (20, 60)},
     ],
